@@ -450,7 +450,11 @@ void SyntaxTree::newDiagnostic(DiagnosticDescriptor descriptor,
     }
 
     snippet.assign(lineBegIt, lineCurIt);
-    std::string marker(start.character(), ' ');
+
+    // The caret goes under the token within the excerpt: that is its column in the
+    // physical line, also when the reported position is that of a macro expansion.
+    auto physLineno = searchForLineno(tk.charStart());
+    std::string marker(searchForColumn(tk.charStart(), physLineno), ' ');
     marker += '^';
     snippet += "\n" + marker + "\n";
 
